@@ -796,6 +796,8 @@ fn c06(ctx: &Ctx, calls: &[CallRec], exchanges: &[Exchange], records: &[Record])
                             }
                         } else if ex.req_fired.iter().any(|f| f.kind == FK::UnknownField) {
                             Want::Reject("unknown_field")
+                        } else if ex.req_fired.iter().any(|f| f.kind == FK::TypeConfusion) {
+                            Want::Reject("wrong_type")
                         } else if all_transparent {
                             Want::Accept
                         } else {
